@@ -1,6 +1,6 @@
 """Per-property registry: Lean module + theorems (proof obligations), translator items,
 the suite that runs correspondence and the oracle search."""
-from props import c01, c05, c06, c07, c08, c09, c12, c13, c19, c20
+from props import c01, c05, c06, c07, c08, c09, c10, c11, c12, c13, c19, c20
 
 TRUSTED_BASE = [
     "Lean 4.33 kernel; axioms limited to propext, Classical.choice, Quot.sound (audited by #print axioms on every run)",
@@ -77,6 +77,8 @@ _reg("C09", c09.run, theorems=["NirVerif.C09.iff", "NirVerif.C09.rejects"],
                 "returns True iff every edge joins a defined output shape to an equal defined input shape, and otherwise "
                 "raises ValueError. The model is tied to _check_types by differential testing on enumerated and sampled graphs.",
      level_note="Lean kernel; hand-written model of _check_types and of np.array_equal on shape values; correspondence sampling.")
+_reg("C10", c10.run)
+_reg("C11", c11.run)
 _reg("C12", c12.run)
 _reg("C13", c13.run)
 _reg("C19", c19.run,
